@@ -1,5 +1,6 @@
 import Anndb.Drive.PQ
 import Anndb.Drive.Hnsw
+import Anndb.Drive.Partition
 /-! `driver <engine>`: the executable Lean models behind a one-line-in, one-line-out protocol. -/
 def main (args : List String) : IO UInt32 := do
   let h ← IO.getStdin
@@ -7,4 +8,5 @@ def main (args : List String) : IO UInt32 := do
   match args with
   | ["pq"] => Anndb.Drive.PQ.main h out; return 0
   | ["hnsw"] => Anndb.Drive.Hnsw.main h out; return 0
+  | ["partition"] => Anndb.Drive.Partition.main h out; return 0
   | _ => IO.eprintln "usage: driver <engine>"; return 2
